@@ -249,3 +249,6 @@ Definition encc_packet (p : packet) : list byte :=
 (* build_bytes_vec_compressed *)
 Definition write_packet_compressed (p : packet) : outcome (list byte) :=
   if packet_writable p then Ok (encc_packet p) else Err InvalidDnsPacket.
+
+(* Packet::parse_section reserves min(remaining / 5, count) entries up front (after the F06 repair) *)
+Definition section_capacity (d : list byte) (offset count : N) : N := N.min ((len d - offset) / 5) count.
